@@ -107,11 +107,11 @@ func (h *handler) ServeHTTP(w http.ResponseWriter, r *http.Request) {
 
 	switch basePL.MessageType {
 	case backend.JoinReq:
-		h.handleJoinReq(w, b)
+		h.handleJoinReq(w, basePL, b)
 	case backend.RejoinReq:
-		h.handleRejoinReq(w, b)
+		h.handleRejoinReq(w, basePL, b)
 	case backend.HomeNSReq:
-		h.handleHomeNSReq(w, b)
+		h.handleHomeNSReq(w, basePL, b)
 	default:
 		h.returnError(w, http.StatusBadRequest, backend.Other, fmt.Sprintf("invalid MessageType: %s", basePL.MessageType))
 	}
@@ -209,11 +209,11 @@ func (h *handler) returnPayload(w http.ResponseWriter, code int, pl interface{})
 	w.Write(b)
 }
 
-func (h *handler) handleJoinReq(w http.ResponseWriter, b []byte) {
+func (h *handler) handleJoinReq(w http.ResponseWriter, basePL backend.BasePayload, b []byte) {
 	var joinReqPL backend.JoinReqPayload
 	err := json.Unmarshal(b, &joinReqPL)
 	if err != nil {
-		h.returnError(w, http.StatusBadRequest, backend.Other, err.Error())
+		h.returnJoinReqError(w, basePL, http.StatusBadRequest, backend.Other, err.Error())
 		return
 	}
 
@@ -260,11 +260,11 @@ func (h *handler) handleJoinReq(w http.ResponseWriter, b []byte) {
 	h.returnPayload(w, http.StatusOK, ans)
 }
 
-func (h *handler) handleRejoinReq(w http.ResponseWriter, b []byte) {
+func (h *handler) handleRejoinReq(w http.ResponseWriter, basePL backend.BasePayload, b []byte) {
 	var rejoinReqPL backend.RejoinReqPayload
 	err := json.Unmarshal(b, &rejoinReqPL)
 	if err != nil {
-		h.returnError(w, http.StatusBadRequest, backend.Other, err.Error())
+		h.returnRejoinReqError(w, basePL, http.StatusBadRequest, backend.Other, err.Error())
 		return
 	}
 
@@ -311,11 +311,11 @@ func (h *handler) handleRejoinReq(w http.ResponseWriter, b []byte) {
 	h.returnPayload(w, http.StatusOK, ans)
 }
 
-func (h *handler) handleHomeNSReq(w http.ResponseWriter, b []byte) {
+func (h *handler) handleHomeNSReq(w http.ResponseWriter, basePL backend.BasePayload, b []byte) {
 	var homeNSReq backend.HomeNSReqPayload
 	err := json.Unmarshal(b, &homeNSReq)
 	if err != nil {
-		h.returnError(w, http.StatusBadRequest, backend.Other, err.Error())
+		h.returnHomeNSReqError(w, basePL, http.StatusBadRequest, backend.Other, err.Error())
 		return
 	}
 
